@@ -11,10 +11,10 @@ open Wac Wac.Spec
 def SrcOK (types : Types) : Nat → Nat → Prop
   | 0, _ => False
   | d + 1, i => ∃ si, types.interfaces[i]? = some si ∧ si.uses = [] ∧ si.id = none ∧
-      ∀ x : Str × ItemKind, x ∈ si.exports → LeafK x.2 ∨ ∃ t, x.2 = .instance t ∧ SrcOK types d t
+      ∀ x : Str × ItemKind, x ∈ si.exports → LeafK x.2 ∨ ∃ b t, x.2 = wrapK b t ∧ SrcOK types d t
 
 /-- source kinds of the nested fragment -/
-def SrcK (types : Types) (d : Nat) (k : ItemKind) : Prop := LeafK k ∨ ∃ t, k = .instance t ∧ SrcOK types d t
+def SrcK (types : Types) (d : Nat) (k : ItemKind) : Prop := LeafK k ∨ ∃ b t, k = wrapK b t ∧ SrcOK types d t
 
 /-- a generalisation of `mapMList_inv` in which the monotonicity of the per-element
 postcondition may use the invariant -/
@@ -77,6 +77,7 @@ structure NI (W : Colls) (types : Types) (S : Nat → Prop) (s : AggState) : Pro
   ik : ∀ i i', alGet s.agg.remapped (GTy.mk' types (.interface i)) = some (.interface i') →
     ¬ S i' ∧ i' < s.agg.types.interfaces.length ∧
       ∀ t, HasTree types (.instance i) t → HasTree s.agg.types (.instance i') t
+  ish : ∀ i ty, alGet s.agg.remapped (GTy.mk' types (.interface i)) = some ty → ∃ i', ty = .interface i'
 
 /-- the copy `k'` is frozen and unfolds to whatever `k` unfolds to -/
 def PostNK (types : Types) (S : Nat → Prop) (s' : AggState) (k k' : ItemKind) : Prop :=
@@ -90,6 +91,44 @@ theorem PostNK.mono {W : Colls} {types : Types} {S : Nat → Prop} {u : Nat} {s 
     (hI : NI W types S s) (h : NRStep u s s') (hp : PostNK types S s k k') : PostNK types S s' k k' :=
   ⟨hp.1.frame (h.frame S), fun t ht => (hp.2 t ht).frame hI.iwf (h.frame S) hp.1⟩
 
+/-- the `type` export of an interface has the tree of the instance, under `type` -/
+theorem hasTree_type_iff (T : Types) (i : Nat) (t : Tree) :
+    HasTree T (.type (.interface i)) t ↔ ∃ t0, t = .type t0 ∧ HasTree T (.instance i) t0 := by
+  constructor
+  · rintro ⟨n, hn⟩
+    cases n with
+    | zero => simp [Types.unfoldKind] at hn
+    | succ n =>
+      simp only [Types.unfoldKind] at hn
+      cases hi : T.interfaces[i]? with
+      | none => simp [hi] at hn
+      | some itf =>
+        simp only [hi] at hn
+        obtain ⟨F, hF, rfl⟩ := Option.map_eq_some_iff.1 hn
+        exact ⟨.instance F, rfl, n + 1, by simp only [Types.unfoldKind, hi, hF, Option.map_some]⟩
+  · rintro ⟨t0, rfl, n, hn⟩
+    cases n with
+    | zero => simp [Types.unfoldKind] at hn
+    | succ n =>
+      simp only [Types.unfoldKind] at hn
+      cases hi : T.interfaces[i]? with
+      | none => simp [hi] at hn
+      | some itf =>
+        simp only [hi] at hn
+        obtain ⟨F, hF, rfl⟩ := Option.map_eq_some_iff.1 hn
+        exact ⟨n + 1, by simp only [Types.unfoldKind, hi, hF, Option.map_some]⟩
+
+theorem postNK_type {types : Types} {S : Nat → Prop} {s' : AggState} {i i' : Nat}
+    (h : PostNK types S s' (.instance i) (.instance i')) : PostNK types S s' (.type (.interface i)) (.type (.interface i')) := by
+  obtain ⟨hf, ht⟩ := h
+  refine ⟨?_, fun t ht0 => ?_⟩
+  · rcases hf with h | ⟨b, t, h1, h2, h3⟩
+    · cases h
+    · obtain ⟨rfl, rfl⟩ := wrapK_inj (b := false) h1
+      exact .inr ⟨true, _, rfl, h2, h3⟩
+  · obtain ⟨t0, rfl, h0⟩ := (hasTree_type_iff types i t).1 ht0
+    exact (hasTree_type_iff _ i' _).2 ⟨t0, rfl, ht t0 h0⟩
+
 section nremap
 variable {W : Colls} {types : Types} (hW : W.mem types) (hs : Sane types) {S : Nat → Prop}
 include hW hs
@@ -98,13 +137,20 @@ omit hs in
 /-- a leaf remap keeps the nested invariant -/
 theorem ni_of_step {s s' : AggState} (hI : NI W types S s) (hr : RInv W s') (hst : Step types.uid s s') :
     NI W types S s' := by
-  refine ⟨⟨hr, by rw [hst.chk]; exact hI.ainv.cinv.ext hst.ext, hst.ext.resources.trans hI.ainv.nores⟩, ?_, ?_, ?_⟩
+  have hish : ∀ i ty, alGet s'.agg.remapped (GTy.mk' types (.interface i)) = some ty → ∃ i', ty = .interface i' := by
+    intro i ty hg
+    have hg' : alGet s.agg.remapped (GTy.mk' types (.interface i)) = some ty := by
+      have := hst.ikeys (GTy.mk' types (.interface i)).uid i
+      simp only [GTy.mk'] at this hg ⊢
+      rw [← this]; exact hg
+    exact hI.ish i ty hg'
+  refine ⟨⟨hr, by rw [hst.chk]; exact hI.ainv.cinv.ext hst.ext, hst.ext.resources.trans hI.ainv.nores⟩, ?_, ?_, ?_, hish⟩
   · intro j itf hj x hx
     rw [hst.ifaces] at hj
     have := hI.iwf j itf hj x hx
-    rcases this with h | ⟨t, h1, h2, h3⟩
+    rcases this with h | ⟨b, t, h1, h2, h3⟩
     · exact .inl h
-    · exact .inr ⟨t, h1, h2, by rw [hst.ifaces]; exact h3⟩
+    · exact .inr ⟨b, t, h1, h2, by rw [hst.ifaces]; exact h3⟩
   · intro j hj; rw [hst.ifaces]; exact hI.sb j hj
   · intro i i' hg
     have hg' : alGet s.agg.remapped (GTy.mk' types (.interface i)) = some (.interface i') := by
@@ -113,7 +159,7 @@ theorem ni_of_step {s s' : AggState} (hI : NI W types S s) (hr : RInv W s') (hst
       rw [← this]; exact hg
     obtain ⟨a, b, c⟩ := hI.ik i i' hg'
     refine ⟨a, by rw [hst.ifaces]; exact b, fun t ht => ?_⟩
-    exact (c t ht).frame hI.iwf (hst.toNRStep.frame S) (.inr ⟨i', rfl, a, b⟩)
+    exact (c t ht).frame hI.iwf (hst.toNRStep.frame S) (.inr ⟨false, i', rfl, a, b⟩)
 
 /-- the spec of `remap_interface` at a given fuel -/
 def IfaceSpec (W : Colls) (types : Types) (S : Nat → Prop) (f : Nat) : Prop :=
@@ -129,13 +175,20 @@ def KindSpec (W : Colls) (types : Types) (S : Nat → Prop) (f : Nat) : Prop :=
 
 theorem kindSpec_succ (f : Nat) (hi : IfaceSpec W types S f) : KindSpec W types S (f + 1) := by
   intro d k s k' s' hI hk h
-  rcases hk with hk | ⟨t, rfl, hsrc⟩
+  rcases hk with hk | ⟨w, t, rfl, hsrc⟩
   · obtain ⟨a, b, c1, c2⟩ := remapKind_leaf_spec hW hs (f + 1) k hk s k' s' hI.ainv.rinv h
     refine ⟨ni_of_step hW hI a b, b.toNRStep, .inl c1, fun t ht => ⟨_, c2 t ht⟩⟩
-  · simp only [remapKind, bind_ok, run_pure, Except.ok.injEq, Prod.mk.injEq] at h
-    obtain ⟨id', s1, h1, rfl, rfl⟩ := h
-    obtain ⟨a, b, c, _⟩ := hi d t s id' s1 hI hsrc h1
-    exact ⟨a, b, c⟩
+  · cases w with
+    | false =>
+      simp only [wrapK, remapKind, bind_ok, run_pure, Except.ok.injEq, Prod.mk.injEq] at h
+      obtain ⟨id', s1, h1, rfl, rfl⟩ := h
+      obtain ⟨a, b, c, _⟩ := hi d t s id' s1 hI hsrc h1
+      exact ⟨a, b, c⟩
+    | true =>
+      simp only [wrapK, remapKind, bind_ok, run_pure, Except.ok.injEq, Prod.mk.injEq] at h
+      obtain ⟨id', s1, h1, rfl, rfl⟩ := h
+      obtain ⟨a, b, c, _⟩ := hi d t s id' s1 hI hsrc h1
+      exact ⟨a, b, postNK_type c⟩
 
 omit hW hs in
 theorem unfoldItems_of_all2' {types T : Types} {S : Nat → Prop} :
@@ -184,7 +237,7 @@ theorem ifaceSpec_succ (f : Nat) (hk : KindSpec W types S f) : IfaceSpec W types
         simp only [run_pure, Except.ok.injEq, Prod.mk.injEq] at h
         obtain ⟨rfl, rfl⟩ := h
         obtain ⟨a, b, c⟩ := hI.ik id i' hg
-        exact ⟨hI, NRStep.refl _ _, ⟨.inr ⟨i', rfl, a, b⟩, c⟩, fun hn => by cases hn⟩
+        exact ⟨hI, NRStep.refl _ _, ⟨.inr ⟨false, i', rfl, a, b⟩, c⟩, fun hn => by cases hn⟩
       | _ => simp [run_apanic] at h
     | none =>
       rw [hg] at h
@@ -245,7 +298,14 @@ theorem ifaceSpec_succ (f : Nat) (hk : KindSpec W types S f) : IfaceSpec W types
               · exact hq.2.1
               · exact ih x hx
           exact this hall' x hx
-        refine ⟨⟨?_, ?_, ?_, ?_⟩, hst2.trans hstep3, ⟨?_, ?_⟩, fun _ => ⟨by simp, ?_⟩⟩
+        have hish : ∀ i ty, alGet (alInsert s2.agg.remapped (GTy.mk' types (.interface id))
+            (.interface s2.agg.types.interfaces.length)) (GTy.mk' types (.interface i)) = some ty → ∃ i', ty = .interface i' := by
+          intro i ty hg0
+          simp only [alGet_alInsert] at hg0
+          split at hg0
+          · cases hg0; exact ⟨_, rfl⟩
+          · exact hI2.ish i ty hg0
+        refine ⟨⟨?_, ?_, ?_, ?_, hish⟩, hst2.trans hstep3, ⟨?_, ?_⟩, fun _ => ⟨by simp, ?_⟩⟩
         · -- AInv
           refine ⟨⟨?_, hI2.ainv.rinv.closed.same_defined hext3 rfl,
             hI2.ainv.rinv.shape.insert _ _ (fun d hd => by simp [GTy.mk'] at hd) (fun f hf => by simp [GTy.mk'] at hf)⟩,
@@ -305,8 +365,8 @@ theorem ifaceSpec_succ (f : Nat) (hk : KindSpec W types S f) : IfaceSpec W types
               rw [unfoldItems_frame hI2.iwf hfr3 hfroz hM]
               rfl
           · obtain ⟨a, b, c⟩ := hI2.ik i i' hg0
-            refine ⟨a, by simp; omega, fun t ht => (c t ht).frame hI2.iwf hfr3 (.inr ⟨i', rfl, a, b⟩)⟩
-        · exact .inr ⟨_, rfl, hnewS, by simp⟩
+            refine ⟨a, by simp; omega, fun t ht => (c t ht).frame hI2.iwf hfr3 (.inr ⟨false, i', rfl, a, b⟩)⟩
+        · exact .inr ⟨false, _, rfl, hnewS, by simp⟩
         · intro t ht
           obtain ⟨N, hN⟩ := ht
           cases N with
@@ -326,9 +386,9 @@ theorem ifaceSpec_succ (f : Nat) (hk : KindSpec W types S f) : IfaceSpec W types
           have lift : ∀ y : Str × ItemKind, FrozenK s2.agg.types S y.2 →
               FrozenK { s2.agg.types with interfaces := s2.agg.types.interfaces ++ [{ id := none, uses := [], exports := E' }] }
                 (fun j => S j ∨ j = s2.agg.types.interfaces.length) y.2 := by
-            rintro y (h | ⟨t, h1, h2, h3⟩)
+            rintro y (h | ⟨b, t, h1, h2, h3⟩)
             · exact .inl h
-            · refine .inr ⟨t, h1, ?_, by simp; omega⟩
+            · refine .inr ⟨b, t, h1, ?_, by simp; omega⟩
               rintro (hc | hc)
               · exact h2 hc
               · exact absurd hc (Nat.ne_of_lt h3)
